@@ -89,7 +89,7 @@ CHECKS = {
         engine="index", design_ref="DESIGN.md §6 C17",
         technique="Lean 4 theorems over all index types and values (finite case split on widths + omega) + differential execution + direct oracle",
         text=("Proof: C17_checked (the check accepts exactly 0 <= v < n for every non-bool integer index type and every value, no aliasing after truncation), "
-              "C17_designates (element v, wholly inside the array), C17_aborts, C17_multi (row-major designation for two-dimensional arrays), C17_multi_n (arrays of ANY rank, by induction on the rank: every index inside its own dimension, row-major element, wholly inside the array; the driver's `index2` op evaluates exactly this definition, `indexMulti`, incl. the 2x3x4 shape), index2_eq_multi, C17_disjoint (distinct accepted indices designate disjoint elements), C17_volatile_index (an index stored in sandbox memory and rewritten by the sandbox at any moment: abort or an element of the array, for every adversary; driven through the C09 interposer). Tied to the code by ~33k ops: "
+              "C17_designates (element v, wholly inside the array), C17_aborts, C17_multi (row-major designation for two-dimensional arrays), C17_multi_n (arrays of ANY rank, by induction on the rank: every index inside its own dimension, row-major element, wholly inside the array; the driver's `index2` op evaluates exactly this definition, `indexMulti`, incl. the 2x3x4 shape), C17_multi_n_complete (the converse: in-range index vectors of the right rank are never refused and yield exactly the row-major address), index2_eq_multi, C17_disjoint (distinct accepted indices designate disjoint elements), C17_volatile_index (an index stored in sandbox memory and rewritten by the sandbox at any moment: abort or an element of the array, for every adversary; driven through the C09 interposer). Tied to the code by ~33k ops: "
               "application- and sandbox-memory arrays, 3 element types, lengths 1..16, 14 index types, plain/tainted/tainted_volatile indices, boundary and aliasing values, 2-D/3-D shapes, canaries."),
         note=NOTE + "bool index types do not compile and are excluded."),
     "C15": dict(
